@@ -346,4 +346,21 @@ def proof_stage(res, props_file, module, pinned, pre=None):
         res.violation("theorems depend on axioms outside the allowlist", {"axioms": foreign}, has_input=False)
         return False
     cov["discharged"] = len(thms)
+    if res.tier == "thorough":
+        # independent re-check of the compiled theorem file and everything it depends on
+        with Lock("coq"):
+            rc, out = sh(["coqchk", "-o", "-silent", "-Q", "theories", "VLS", "VLS.Props." + props_file[:-2]],
+                         cwd=COQ, timeout=3000)
+        summary = out[out.find("CONTEXT SUMMARY"):] if "CONTEXT SUMMARY" in out else out[-1500:]
+        m = re.search(r"\* Axioms:(.*?)\n\s*\n\* Constants/Inductives relying on type-in-type:(.*?)\n\s*\n"
+                      r"\* Constants/Inductives relying on unsafe \(co\)fixpoints:(.*?)\n\s*\n"
+                      r"\* Inductives whose positivity is assumed:(.*?)\n", summary, re.S)
+        fields = [x.strip() for x in m.groups()] if m else None
+        cov["coqchk"] = {"cmd": "coqchk -o -silent -Q theories VLS VLS.Props." + props_file[:-2], "rc": rc,
+                         "axioms": fields[0] if fields else None, "type_in_type": fields[1] if fields else None,
+                         "unsafe_fixpoints": fields[2] if fields else None, "assumed_positivity": fields[3] if fields else None}
+        if rc != 0 or not fields or any(f != "<none>" for f in fields):
+            res.violation("coqchk does not confirm Props/%s (independent checker): %s" % (props_file, summary[-800:]),
+                          {"theorem_file": "coq/theories/Props/" + props_file, "coqchk": summary[-2000:]}, has_input=False)
+            return False
     return True
